@@ -18,3 +18,39 @@ Theorem C19_level_schedule_independent : forall (slots : list nat) (size : nat),
     sc st = map (fun s => 2 <=? cnt s slots) (seq 0 size).
 Proof. exact phase1_final. Qed.
 Print Assumptions C19_level_schedule_independent.
+
+(* Phase 2 (Context::filter on every key, in parallel, after the join of phase 1; [c] = the final collide,
+   [a0] = the a left by phase 1): for every interleaving, a bit survives unless its slot is marked and carries
+   a key, and the keys collected (in input order: rayon's collect contract, trusted) are those on marked slots. *)
+Theorem C19_filter_schedule_independent : forall (slots : list nat) (size : nat) (c a0 : bv),
+  (forall i, i < length slots -> slot slots i < size) -> length a0 = size ->
+  forall st, clos_refl_trans _ (step2 slots c) (init2 (length slots) a0) st -> done2 slots st ->
+    sa2 st = map (fun s => bget a0 s && negb (bget c s && (1 <=? cnt s slots))) (seq 0 size) /\
+    forall keys, length keys = length slots -> collect keys (pcs2 st) = redo_spec c keys slots.
+Proof. exact phase2_final. Qed.
+
+(* One level, both phases, any schedules: the bit vector and the redo list of the serial code. *)
+Theorem C19_level_par_eq_serial : forall (h : nat -> nat -> key -> nat) (sz : nat -> nat),
+  (forall iter n k, h iter (sz n) k < sz n) ->
+  forall iter keys a redo, level_par h sz iter keys a redo -> (a, redo) = level_serial h sz iter keys.
+Proof. exact level_par_eq_serial. Qed.
+
+(* Mphf::new_parallel under any schedule of every level = Mphf::new: the same list of level bit vectors
+   (or the same "more than MAX_ITERS levels" panic, None). *)
+Theorem C19_mphf_parallel_eq_serial : forall (h : nat -> nat -> key -> nat) (sz : nat -> nat),
+  (forall iter n k, h iter (sz n) k < sz n) ->
+  forall keys r, mphf_par h sz keys r -> r = mphf_new h sz keys.
+Proof. exact mphf_par_eq. Qed.
+
+(* BaseGraph::finish under any schedule = BaseGraph::finish_serial, structurally: base graph, both MPHFs,
+   both key/value tables.  Hence every query answered from the structure is identical, and identical from
+   run to run. *)
+Theorem C19_finish_eq_finish_serial : forall (h : nat -> nat -> key -> nat) (sz : nat -> nat),
+  (forall iter n k, h iter (sz n) k < sz n) ->
+  forall K g r, finish_par h sz K g r -> r = finish_serial h sz K g.
+Proof. exact finish_par_eq. Qed.
+
+Print Assumptions C19_filter_schedule_independent.
+Print Assumptions C19_level_par_eq_serial.
+Print Assumptions C19_mphf_parallel_eq_serial.
+Print Assumptions C19_finish_eq_finish_serial.
